@@ -144,6 +144,7 @@ def main():
     signal.signal(signal.SIGALRM, _on_alarm)
     sigs = []
     tabs = set()
+    kept = []       # every matrix object a builder handed out in this case, UNCOPIED, with the values it had at that moment
     out = sys.stdout
     for line in sys.stdin:
         w = line.split()
@@ -154,6 +155,7 @@ def main():
             elif w[0] == "#":
                 sigs = []
                 tabs = set()
+                kept = []
                 res = "#"
             elif w[0] == "sig" and len(w) == 6:
                 idx, scaled, track, ksize = (int(x) for x in w[1:5])
@@ -195,14 +197,19 @@ def main():
                         if tuple(M.shape) != (m, m):
                             res = f"shape {tuple(M.shape)}"
                         else:
-                            res = f"mat {m} " + " ".join(bits(M[i][j]) for i in range(m) for j in range(m))
-                        del M
+                            snap = [bits(M[i][j]) for i in range(m) for j in range(m)]
+                            res = f"mat {m} " + " ".join(snap)
+                            kept.append((line.strip(), M, m, snap))
                     except Exception as e:      # noqa: BLE001
                         res = "err " + exc_name(e)
                         reap(e)
                         signal.alarm(0)
                         if _dbg is not None:
                             faulthandler.cancel_dump_traceback_later()
+            elif w[0] == "recheck" and len(w) == 1:
+                # results are values: no later call may change a matrix that was returned earlier
+                changed = [op for op, M, m, snap in kept if [bits(M[i][j]) for i in range(m) for j in range(m)] != snap]
+                res = f"recheck {len(kept)} " + ("unchanged" if not changed else "CHANGED " + " | ".join(changed[:3]))
         except (ValueError, IndexError, KeyError):
             res = "bad-op"
         out.write(res + "\n")
